@@ -967,6 +967,7 @@ fn fault_client_options(v5: bool) -> (MqttClientOptions, ConnectOptions) {
 }
 
 struct FaultRun {
+    events: Vec<String>,
     conns: Vec<Arc<Mutex<Shared>>>,
     outcomes: Vec<Option<Outcome>>,
     loop_gone: bool,
@@ -1018,7 +1019,8 @@ fn run_faulty_threaded(c: &FaultCase) -> FaultRun {
     let factory: Arc<dyn Fn() -> GneissResult<Transport> + Send + Sync> = Arc::new(move || Ok(Transport(fault_new_conn(&c2, &conns2))));
     let (copts, conn) = fault_client_options(c.v5);
     let client = new_threaded_client(copts, conn, ThreadedOptions::builder().build(), factory);
-    let _ = client.start(None);
+    let obs = Observed { connected: Arc::new(AtomicBool::new(false)), received: Arc::new(Mutex::new(Vec::new())), events: Arc::new(Mutex::new(Vec::new())) };
+    let _ = client.start(Some(listener(&obs)));
     enum Handle {
         P(SyncPublishResult),
         S(SyncSubscribeResult),
@@ -1050,7 +1052,8 @@ fn run_faulty_threaded(c: &FaultCase) -> FaultRun {
     let _ = client.close();
     let (gone, _) = fault_wait(&conns, Duration::from_secs(5), Duration::from_secs(20), || client.start(None).is_err());
     let list = conns.lock().unwrap().clone();
-    FaultRun { conns: list, outcomes, loop_gone: gone, stalled }
+    let events = obs.events.lock().unwrap().clone();
+    FaultRun { events, conns: list, outcomes, loop_gone: gone, stalled }
 }
 
 fn run_faulty_tokio(c: &FaultCase) -> FaultRun {
@@ -1068,7 +1071,8 @@ fn run_faulty_tokio(c: &FaultCase) -> FaultRun {
         let _g = rt.enter();
         new_tokio_client(copts, conn, TokioOptions::builder(rt.handle().clone()).build(), factory)
     };
-    let _ = client.start(None);
+    let obs = Observed { connected: Arc::new(AtomicBool::new(false)), received: Arc::new(Mutex::new(Vec::new())), events: Arc::new(Mutex::new(Vec::new())) };
+    let _ = client.start(Some(listener(&obs)));
     let n = c.ops.len();
     let outcomes: Arc<Mutex<Vec<Option<Outcome>>>> = Arc::new(Mutex::new((0..n).map(|_| None).collect()));
     for (ix, op) in c.ops.iter().enumerate() {
@@ -1104,7 +1108,10 @@ fn run_faulty_tokio(c: &FaultCase) -> FaultRun {
     let (gone, _) = fault_wait(&conns, Duration::from_secs(5), Duration::from_secs(20), || client.start(None).is_err());
     let outs = outcomes.lock().unwrap().clone();
     let list = conns.lock().unwrap().clone();
-    FaultRun { conns: list, outcomes: outs, loop_gone: gone, stalled }
+    // the tokio client runs every listener invocation as a task of its own: give the last ones a moment
+    std::thread::sleep(Duration::from_millis(20));
+    let events = obs.events.lock().unwrap().clone();
+    FaultRun { events, conns: list, outcomes: outs, loop_gone: gone, stalled }
 }
 
 fn check_faulty(c: &FaultCase) -> CaseReport {
@@ -1135,6 +1142,46 @@ fn check_faulty(c: &FaultCase) -> CaseReport {
     }
     if missing > 0 && r.stalled {
         violations.push(Violation::new("C13.result_missing_after_faults", format!("{}: operations never complete although the transport is idle and a healthy connection with a responsive broker was available", driver), format!("{} of {} unresolved; connections {} faults {:?}", missing, c.ops.len(), r.conns.len(), c.faults)));
+    }
+    // lifecycle events of the real client (second witness for the event-stream clause of C12, reported under C13's
+    // rig): counts for both drivers, order only for the threaded client (the tokio client runs every listener
+    // invocation as a task of its own, so the order in which the application sees events is up to the runtime)
+    {
+        let count = |k: &str| r.events.iter().filter(|e| e.as_str() == k).count();
+        let (att, suc, fai, dis) = (count("attempt"), count("success"), count("failure"), count("disconnection"));
+        if suc + fai > att || dis > suc || att > r.conns.len() + 1 {
+            violations.push(Violation::new("C13.lifecycle_counts", format!("{}: lifecycle events do not add up (every attempt has at most one outcome, every disconnection follows a success)", driver), format!("attempts {} successes {} failures {} disconnections {} transports opened {}; {:?}", att, suc, fai, dis, r.conns.len(), r.events)));
+        }
+        if !c.tokio {
+            // 0 idle, 1 attempting, 2 up
+            let mut st = 0;
+            for (i, e) in r.events.iter().enumerate() {
+                let ok = match (st, e.as_str()) {
+                    (0, "attempt") => {
+                        st = 1;
+                        true
+                    }
+                    (1, "failure") => {
+                        st = 0;
+                        true
+                    }
+                    (1, "success") => {
+                        st = 2;
+                        true
+                    }
+                    (2, "disconnection") => {
+                        st = 0;
+                        true
+                    }
+                    (0, "stopped") => true,
+                    _ => false,
+                };
+                if !ok {
+                    violations.push(Violation::new("C13.lifecycle_order", "threaded: the event stream is not (attempt (failure | success disconnection))*", format!("event #{} in {:?}", i, r.events)));
+                    break;
+                }
+            }
+        }
     }
     // per connection: what the transport received
     let mut seen_complete: BTreeSet<u32> = BTreeSet::new();
